@@ -1,2 +1,140 @@
 import ZarrsModel.Model.FillMeta
-/- helper lemmas for C14/C13 -/
+import ZarrsModel.Lemmas.JsonBase
+/- helper lemmas for C14/C13: the JSON parser inverts the printer on well-formed documents -/
+namespace Zarrs.Json
+
+theorem printList_single (x : J) : printList [x] = print x := by rw [printList]
+theorem printList_cons2 (x y : J) (ys : List J) :
+    printList (x :: y :: ys) = print x ++ 44 :: printList (y :: ys) := by
+  rw [printList]; simp
+  intro h; cases h
+theorem printKVs_single (k : Str) (v : J) : printKVs [(k, v)] = printStr k ++ 58 :: print v := by
+  rw [printKVs]; simp
+theorem printKVs_cons2 (k : Str) (v : J) (kv : Str × J) (kvs : List (Str × J)) :
+    printKVs ((k, v) :: kv :: kvs) = printStr k ++ 58 :: (print v ++ 44 :: printKVs (kv :: kvs)) := by
+  rw [printKVs]
+  · simp
+  · intros; simp_all
+
+theorem printList_head (x : J) (xs : List J) (h : wfList (x :: xs)) :
+    ∃ b tl, printList (x :: xs) = b :: tl ∧ isWs b = false ∧ b ≠ 93 := by
+  obtain ⟨b, tl, e, h1, h2, _⟩ := print_head x (by simp only [wfList] at h; exact h.1)
+  cases xs with
+  | nil => exact ⟨b, tl, by rw [printList_single, e], h1, h2⟩
+  | cons y ys => exact ⟨b, tl ++ 44 :: printList (y :: ys), by rw [printList_cons2, e]; rfl, h1, h2⟩
+
+theorem any_key_false (acc : List (Str × J)) (k : Str) (v : J) (kvs : List (Str × J))
+    (h : keysDistinct (acc ++ (k, v) :: kvs)) : acc.any (·.1 == k) = false := by
+  unfold keysDistinct at h
+  rw [List.map_append, List.nodup_append] at h
+  have h3 := h.2.2
+  rw [Bool.eq_false_iff]
+  intro hc
+  rw [List.any_eq_true] at hc
+  obtain ⟨p, hp, hpk⟩ := hc
+  have hpk' : p.1 = k := by simpa using hpk
+  exact h3 p.1 (List.mem_map_of_mem hp) k (by simp) hpk'
+
+mutual
+theorem pv_print (j : J) (h : j.wf) (fuel : Nat) (rest : List Nat) (hr : headOk rest)
+    (hf : (print j).length < fuel) : parseValue fuel (print j ++ rest) = some (j, rest) := by
+  obtain ⟨f, rfl⟩ : ∃ f, fuel = f + 1 := ⟨fuel - 1, by omega⟩
+  match j, h with
+  | .null, _ => simp only [print, ascii_null]; exact pv_null f rest
+  | .bool true, _ => simp only [print, ascii_true]; exact pv_true f rest
+  | .bool false, _ => simp only [print, ascii_false]; exact pv_false f rest
+  | .num t, h =>
+    simp only [J.wf] at h
+    obtain ⟨b, tl, e, hb⟩ := num_head t h
+    simp only [print]
+    have e' : List.map Char.toNat t ++ rest = b :: (tl ++ rest) := by rw [e]; rfl
+    rw [e', pv_num _ _ _ hb, ← e', h rest hr]; rfl
+  | .str s, h =>
+    simp only [J.wf] at h
+    have e' : print (.str s) ++ rest = 34 :: (s.flatMap escapeByte ++ 34 :: rest) := by
+      simp [print, printStr]
+    rw [e', pv_str, parseStr_print _ _ h.2]; rfl
+  | .arr [], _ =>
+    have e' : print (.arr []) ++ rest = 91 :: 93 :: rest := by simp [print, printList]
+    rw [e', pv_arr_nil]
+  | .arr (x :: xs), h =>
+    simp only [J.wf] at h
+    obtain ⟨b, tl, e, hws, h93⟩ := printList_head x xs h
+    have e' : print (.arr (x :: xs)) ++ rest = 91 :: (printList (x :: xs) ++ 93 :: rest) := by
+      simp [print]
+    have e'' : printList (x :: xs) ++ 93 :: rest = b :: (tl ++ 93 :: rest) := by rw [e]; rfl
+    have hl : (print (.arr (x :: xs))).length = (printList (x :: xs)).length + 2 := by
+      simp [print]
+    rw [e', e'', pv_arr _ _ _ hws h93, ← e'',
+      pe_print (x :: xs) (by simp) h f rest [] (by omega)]
+    rfl
+  | .obj [], _ =>
+    have e' : print (.obj []) ++ rest = 123 :: 125 :: rest := by simp [print, printKVs]
+    rw [e', pv_obj_nil]
+  | .obj ((k, v) :: kvs), h =>
+    simp only [J.wf] at h
+    have e' : print (.obj ((k, v) :: kvs)) ++ rest = 123 :: (printKVs ((k, v) :: kvs) ++ 125 :: rest) := by
+      simp [print]
+    obtain ⟨tl, e⟩ : ∃ tl, printKVs ((k, v) :: kvs) = 34 :: tl := by
+      cases kvs with
+      | nil => exact ⟨_, by rw [printKVs_single, printStr]; rfl⟩
+      | cons kv kvs => exact ⟨_, by rw [printKVs_cons2, printStr]; rfl⟩
+    have e'' : printKVs ((k, v) :: kvs) ++ 125 :: rest = 34 :: (tl ++ 125 :: rest) := by rw [e]; rfl
+    have hl : (print (.obj ((k, v) :: kvs))).length = (printKVs ((k, v) :: kvs)).length + 2 := by
+      simp [print]
+    rw [e', e'', pv_obj _ _ _ (by decide) (by decide), ← e'',
+      pm_print ((k, v) :: kvs) (by simp) h.1 [] (by simpa using h.2) f rest (by omega)]
+    rfl
+theorem pe_print (xs : List J) (hne : xs ≠ []) (h : wfList xs) (fuel : Nat) (rest : List Nat) (acc : List J)
+    (hf : (printList xs).length + 1 < fuel) :
+    parseElems fuel (printList xs ++ 93 :: rest) acc = some (acc ++ xs, rest) := by
+  obtain ⟨f, rfl⟩ : ∃ f, fuel = f + 1 := ⟨fuel - 1, by omega⟩
+  match xs, hne, h with
+  | [x], _, h =>
+    simp only [wfList] at h
+    rw [printList_single] at hf ⊢
+    rw [pe_close f _ acc x rest (pv_print x h.1 f (93 :: rest) (headOk_93 _) (by omega))]
+  | x :: y :: ys, _, h =>
+    simp only [wfList] at h
+    rw [printList_cons2] at hf ⊢
+    simp only [List.length_append, List.length_cons] at hf
+    rw [List.append_assoc, List.cons_append,
+      pe_comma f _ acc x _ (pv_print x h.1 f _ (headOk_44 _) (by omega)),
+      pe_print (y :: ys) (by simp) (by simp only [wfList]; exact h.2) f rest (acc ++ [x]) (by omega)]
+    simp
+theorem pm_print (kvs : List (Str × J)) (hne : kvs ≠ []) (h : wfKVs kvs) (acc : List (Str × J))
+    (hd : keysDistinct (acc ++ kvs)) (fuel : Nat) (rest : List Nat)
+    (hf : (printKVs kvs).length + 1 < fuel) :
+    parseMembers fuel (printKVs kvs ++ 125 :: rest) acc = some (acc ++ kvs, rest) := by
+  obtain ⟨f, rfl⟩ : ∃ f, fuel = f + 1 := ⟨fuel - 1, by omega⟩
+  match kvs, hne, h with
+  | [(k, v)], _, h =>
+    simp only [wfKVs] at h
+    rw [printKVs_single] at hf ⊢
+    simp only [List.length_append, List.length_cons] at hf
+    have e : printStr k ++ 58 :: print v ++ 125 :: rest
+        = 34 :: (k.flatMap escapeByte ++ 34 :: 58 :: (print v ++ 125 :: rest)) := by
+      simp [printStr]
+    rw [e, pm_close f _ acc k v rest _ (parseStr_print k _ h.1.2)
+      (pv_print v h.2.1 f _ (headOk_125 _) (by omega)) (any_key_false acc k v [] hd)]
+  | (k, v) :: kv :: kvs, _, h =>
+    simp only [wfKVs] at h
+    rw [printKVs_cons2] at hf ⊢
+    simp only [List.length_append, List.length_cons] at hf
+    have e : printStr k ++ 58 :: (print v ++ 44 :: printKVs (kv :: kvs)) ++ 125 :: rest
+        = 34 :: (k.flatMap escapeByte ++ 34 :: 58 :: (print v ++ 44 :: (printKVs (kv :: kvs) ++ 125 :: rest))) := by
+      simp [printStr]
+    rw [e, pm_comma f _ acc k v _ _ (parseStr_print k _ h.1.2)
+      (pv_print v h.2.1 f _ (headOk_44 _) (by omega)) (any_key_false acc k v _ hd),
+      pm_print (kv :: kvs) (by simp) h.2.2 (acc ++ [(k, v)]) (by simpa using hd) f rest (by omega)]
+    simp
+end
+
+theorem parse_print (j : J) (h : j.wf) : parse (print j) = some j := by
+  unfold parse
+  have := pv_print j h ((print j).length + 1) [] headOk_nil (by omega)
+  rw [List.append_nil] at this
+  rw [this]
+  rfl
+
+end Zarrs.Json
